@@ -59,6 +59,7 @@ struct E {
 	friend bool operator==(E const& a, E const& b) { return a.v == b.v; }
 	friend bool operator!=(E const& a, E const& b) { return a.v != b.v; }
 	friend bool operator<(E const& a, E const& b) { return a.v < b.v; }
+	template<class Archive> void serialize(Archive& ar, unsigned /*version*/) { chk("serialize"); ar & v; }   // Boost.Serialization (C08/C17 load path)
 };
 // element type with a NON-trivial default constructor but TRIVIAL destructor/copy (e.g. struct { int v = 0; }, std::pair<int,int>): value-initialisation is required, lifetime is not tracked
 struct Q {
